@@ -399,6 +399,10 @@ func C13(c *core.Ctx) {
 	if c.HasViolation() || c.Expired() {
 		return
 	}
+	capacityReuse(c)
+	if c.HasViolation() || c.Expired() {
+		return
+	}
 	concurrent(c)
 }
 
@@ -672,6 +676,125 @@ func capacityCase(headOff, inflight int, order string) (string, int) {
 	}
 	if v := do(op{kind: opAcked}); v != "" {
 		return v, steps
+	}
+	if len(in.model.q) != 0 {
+		return "harness: model not empty at the end", steps
+	}
+	if _, _, _, count := in.aq.VerifShape(); count != 0 {
+		return fmt.Sprintf("after every request was acknowledged and collected the queue still holds %d entries", count), steps
+	}
+	return "", steps
+}
+
+// capacityReuse: a registration whose identifier is already in the queue,
+// made at the moment the queue is exactly full (or one below / one above its
+// size) with the head anywhere in the ring.  Any subset of the in-flight
+// requests has reached its terminal acknowledgement before (all subsets for
+// sizes 4 and 8, subsets of at most two for size 16): the identifier used
+// again belongs either to a completed request that still waits behind an
+// earlier one (the registration is a new request) or to one still in flight
+// (a repetition, nothing changes).  Afterwards everything is acknowledged in
+// order and collected, compared with the list model at every step.
+func capacityReuse(c *core.Ctx) {
+	n := 0
+	for _, size := range []int{4, 8, 16} {
+		for headOff := 0; headOff < size; headOff++ {
+			for _, fill := range []int{size - 1, size, size + 1} {
+				maxSub := fill
+				if size == 16 {
+					maxSub = 2
+				}
+				for sub := uint32(0); sub < 1<<uint(fill); sub++ {
+					if bits(sub) > maxSub {
+						continue
+					}
+					for j := 0; j < fill; j++ {
+						n++
+						if c.NShards > 1 && n%c.NShards != c.Shard {
+							continue
+						}
+						if n%256 == 0 && c.Expired() {
+							return
+						}
+						v, steps := capacityReuseCase(size, headOff, fill, sub, j)
+						c.Rep.Transitions += int64(steps)
+						if v != "" {
+							c.Violate("C13 capacity-reuse "+classOf(v), core.Replay{Scenario: fmt.Sprintf("capacity-reuse size=%d head=%d inflight=%d terminal-set=%b reused=#%d", size, headOff, fill, sub, j), Message: v})
+							return
+						}
+						c.Rep.Executions++
+						c.Rep.Evaluations++
+						c.Rep.States++
+					}
+				}
+			}
+		}
+	}
+	c.Rep.Scenarios++
+	c.Rep.Sample(map[string]interface{}{"search": "capacity-reuse", "sizes": []int{4, 8, 16}, "head_offsets": "0..size-1", "in_flight": "size-1, size, size+1", "terminal_subsets": "all (size 4, 8), up to two entries (size 16)", "reused": "every in-flight identifier"})
+}
+
+func bits(x uint32) int {
+	n := 0
+	for ; x != 0; x &= x - 1 {
+		n++
+	}
+	return n
+}
+
+func capacityReuseCase(size, headOff, fill int, sub uint32, j int) (string, int) {
+	in := newInstance(size)
+	steps := 0
+	do := func(o op) string {
+		steps++
+		return in.apply(o)
+	}
+	id := uint16(200)
+	for i := 0; i < headOff; i++ {
+		id++
+		for _, o := range []op{{kind: opWait, mtype: refcodec.PUBLISH, qos: 2, id: id}, {kind: opAck, mtype: refcodec.PUBREL, id: id}, {kind: opAcked}} {
+			if v := do(o); v != "" {
+				return v, steps
+			}
+		}
+	}
+	var ids []uint16
+	for i := 0; i < fill; i++ {
+		id++
+		ids = append(ids, id)
+		if v := do(op{kind: opWait, mtype: refcodec.PUBLISH, qos: 2, id: id}); v != "" {
+			return v, steps
+		}
+	}
+	for i := 0; i < fill; i++ {
+		if sub&(1<<uint(i)) != 0 {
+			if v := do(op{kind: opAck, mtype: refcodec.PUBREL, id: ids[i]}); v != "" {
+				return v, steps
+			}
+		}
+	}
+	// the registration with an identifier that is in the queue (no collect in between)
+	if v := do(op{kind: opWait, mtype: refcodec.PUBLISH, qos: 2, id: ids[j]}); v != "" {
+		return v, steps
+	}
+	// acknowledge what is open, oldest first, collecting after each
+	for guard := 0; len(in.model.q) > 0 && guard < 4*size+8; guard++ {
+		acked := false
+		for k := range in.model.q {
+			if !terminal(in.model.q[k].state) {
+				if v := do(op{kind: opAck, mtype: refcodec.PUBREL, id: in.model.q[k].id}); v != "" {
+					return v, steps
+				}
+				acked = true
+				break
+			}
+		}
+		if v := do(op{kind: opAcked}); v != "" {
+			return v, steps
+		}
+		if !acked && len(in.model.q) > 0 {
+			return "harness: model keeps completed requests after a collect", steps
+		}
 	}
 	if len(in.model.q) != 0 {
 		return "harness: model not empty at the end", steps
